@@ -87,6 +87,20 @@ def check_boundary_region(run, rb, parent_mesh, label=None, precondition_valid=T
     else:
         run.fail(mon, key + "clause=cells_faces", "%s: cells_faces are not the points on the first face of the boundary cell" % tag)
 
+    # per-face area vector of the linear cell types straight from the face's corner coordinates (exact for the bilinear patch /
+    # the straight edge, independent of the region's shape functions): sum_q dA = +-1/2 (P2 - P0) x (P3 - P1), resp. rot(P1 - P0)
+    if ct in ("quad", "hexahedron") and cf.shape[1] == (2 if dim == 2 else 4):
+        Pf = pts[cf]
+        if dim == 3:
+            ref = 0.5 * np.cross(Pf[:, 2] - Pf[:, 0], Pf[:, 3] - Pf[:, 1])
+        else:
+            e = Pf[:, 1] - Pf[:, 0]
+            ref = np.stack([e[:, 1], -e[:, 0]], 1)
+        got = dA_d.sum(1).T  # (faces, dim)
+        sgn = np.sign((got * ref).sum(1))
+        run.compare(mon, key + "clause=face-area-vector", maxabs(got - sgn[:, None] * ref) / max(maxabs(ref), 1e-300), 1e-12,
+                    "%s: the area vector of a face is not the one spanned by its corner points" % tag, unit=unit + ":face-area-vector")
+
     closed = rb.mask is None
     if closed and rb.only_surface:
         run.compare(mon, key + "clause=closure", maxabs(dA_d.sum((1, 2))) / scale, 1e-12,
